@@ -369,6 +369,9 @@ def auto(F, s, ctx):
                             if desc[0] == "bin" and isinstance(pol, bool) and okey(f, desc[2]) == ok2 and desc[3][0] == "c" and mir.const_of(desc[3]) == 0:
                                 if (desc[1] == "Ge" and not pol) or (desc[1] == "Lt" and pol):
                                     return True, "(len as isize) + idx under idx < 0"
+                # len(a) + len(b): each is at most isize::MAX, the sum fits usize
+                if collection_index(f, ops[0]) and collection_index(f, ops[1]):
+                    return True, "sum of two lengths / indices of in-memory collections (each <= isize::MAX)"
                 # position / length of an in-memory collection plus a small constant: bounded by isize::MAX + c
                 if b is not None and b <= 65536 and collection_index(f, ops[0]):
                     return True, "index or length of an in-memory collection (<= isize::MAX) plus %d" % b
